@@ -83,7 +83,7 @@ def gen(rng, i, tier):
             # (boundary: a voltage exactly EQUAL to the cut-off is not "> cutoff" - stair-step / tabulated battery models)
             "end": {5: "cutoff_exact", 1: "already_at"}.get(i % 8, rng.choice(["capacity", "cutoff", "already_below", "capacity"])),
             "history": ["fresh", "identity_change_comp", "index_gaps", "solve_then_move_leaf", "analysed_while_built",
-                        "solve_then_swap_leaves", "solve_then_retune"][i % 7], "by_rail": i % 3 != 0,
+                        "solve_then_swap_leaves", "solve_then_retune", "scratch_first_source"][i % 8], "by_rail": i % 3 != 0,
             "earlier_run": i % 5 in (1, 3), "declared_zero": i % 6 == 2, "on_copy": i % 7 == 3}
 
 
